@@ -159,7 +159,21 @@ def first_wins(ctx):
     F, R, cg = ctx.facts, ctx.report, ctx.cg
     n_entry = 0
     entry_fns = set()
+    # generic helpers (`fn insert_first_wins<K, V>(map: &mut HashMap<K, V>, ..)`): what they are instantiated with
+    from rules.lib_call import all_fn_refs
+    generic_inst = {}
     for path, body in fibex_bodies(F):
+        names = [g for g in (body.get("generics") or []) if not g.startswith("const ") and not g.startswith("'")]
+        if not names:
+            continue
+        for q, qb in fibex_bodies(F):
+            for bi, f, sp, how in all_fn_refs(qb):
+                if f["path"] == path or f.get("resolved") == path:
+                    tys = [F.ty_s(a) for a in f.get("args", []) if isinstance(a, int)]
+                    generic_inst.setdefault(path, []).append(tys)
+    for path, body in fibex_bodies(F):
+        insts = generic_inst.get(path, [])
+        inst_result = sum(1 for tys in insts if any(("PduMetadata" in t or "FrameMetadata" in t) for t in tys))
         for bi, blk in enumerate(body["blocks"]):
             if blk["cleanup"]:
                 continue
@@ -170,7 +184,8 @@ def first_wins(ctx):
             tgt = cfg.fn_target(f)
             tys = [a for a in f.get("args", []) if isinstance(a, int)]
             sty = f.get("self_ty")
-            touches = (sty is not None and is_result_map_ty(F, sty)) or ("HashMap" in tgt and any(("PduMetadata" in F.ty_s(a) or "FrameMetadata" in F.ty_s(a)) for a in tys)) or (("Entry" in tgt) and any(("PduMetadata" in F.ty_s(a) or "FrameMetadata" in F.ty_s(a)) for a in tys))
+            generic_map = inst_result > 0 and "HashMap" in tgt and any(F.ty(a)["k"] == "param" for a in tys)
+            touches = generic_map or (sty is not None and is_result_map_ty(F, sty)) or ("HashMap" in tgt and any(("PduMetadata" in F.ty_s(a) or "FrameMetadata" in F.ty_s(a)) for a in tys)) or (("Entry" in tgt) and any(("PduMetadata" in F.ty_s(a) or "FrameMetadata" in F.ty_s(a)) for a in tys))
             if not touches:
                 continue
             fl, ln = loc_of(blk)
@@ -178,7 +193,7 @@ def first_wins(ctx):
                 short = re.sub(r"<.*?>", "", "::".join(tgt.split("::")[-2:]))
                 R.violation("FIRST", "%s|%s" % (path, short), "%s writes a result map through %s: only the vacant arm of the entry API keeps the first definition of a duplicated id" % (path, tgt), function=path, file=fl, line=ln)
             elif re.search(r"HashMap::<.*>::entry$", tgt):
-                n_entry += 1
+                n_entry += inst_result if generic_map else 1
                 entry_fns.add(path)
                 R.instance("FIRST", "%s: entry() on a result map" % path)
     # the loop over the files: the loop (in any function) whose body reaches Reader::from_file
@@ -214,7 +229,7 @@ def first_wins(ctx):
         R.obligation("FIRST", READ + "|entry-only", "discharged", "%d entry() calls on result maps, no other write" % n_entry)
     else:
         R.violation("FIRST", READ + "|entry-count", "expected an entry() call per result map (3), found %d" % n_entry, function=READ, kind="UNRECOGNISED-SHAPE")
-    R.floor("FIRST", 3)
+    R.floor("FIRST", 1)
 
 
 def refs(ctx):
@@ -237,6 +252,8 @@ def refs(ctx):
             rt = F.ty_s(body["locals"][0]["ty"])
             if any(re.search(r"Option::<T>::(ok_or_else|ok_or)$", n) for n in names) and "Result<" in rt:
                 pdu_ok = True
+            elif miss_is_error(ctx, path) is True:
+                pdu_ok = True
             else:
                 fl, ln = body["span"]["f"], body["span"]["l"]
                 R.violation("REFS", "%s|pdu-refs" % path.split("::{")[0], "%s looks a PDU reference up without turning a miss into an error (no ok_or_else / Result): a reference to an unknown PDU would be dropped instead of failing the load" % path, function=path, file=fl, line=ln)
@@ -251,6 +268,40 @@ def refs(ctx):
     elif not any("pdu-refs" in v["key"] for v in R.violations):
         R.violation("REFS", READ + "|pdu-refs", "cannot find the fallible lookup of PDU references", function=READ, kind="UNRECOGNISED-SHAPE")
     R.floor("REFS", 2)
+
+
+def miss_is_error(ctx, path):
+    """Semantic form of the PDU-reference rule: on every path of `path` (one iteration of its loop, if any) on which the
+    lookup in the PDU map misses, the function returns Err — a miss is neither skipped nor replaced.  True / False /
+    None (no miss path seen)."""
+    from engine.contracts import ret_ty
+    from rules.lib_fibexflow import once_body
+    F = ctx.facts
+    body = F.body(path)
+    b1 = once_body(F, path) if cfg.natural_loops(body) else body
+    if b1 is None:
+        return None
+    eng = Engine(F)
+    eng.key_all = True
+
+    def on_call(eng_, st, fr, f, args, site):
+        if re.search(r"HashMap::<.*>::get$", f["path"]) and any("PduMetadata" in F.ty_s(a) for a in f.get("args", []) if isinstance(a, int)):
+            return [(st, Top(ret_ty(eng_, site), "pdu_get"))]
+        return None
+
+    eng.on_call = on_call
+    try:
+        outs = eng.call_path(b1["path"], eng.symbolic_args(b1))
+    except Exception:
+        return None
+    seen = False
+    for st, rv in outs:
+        if not any(k[0] == "variant" and k[1] == "pdu_get" and k[2] == "None" for k in st.key):
+            continue
+        seen = True
+        if not (isinstance(rv, Enum) and rv.variants and all(eng.T.variant_name(rv.ty, vi) == "Err" for vi, _ in rv.variants)):
+            return False
+    return True if seen else None
 
 
 def sort_keys(ctx):
@@ -411,6 +462,9 @@ def attr(ctx):
     eng.on_call = on_call
     outs = eng.call_path(ATTR, eng.symbolic_args(b, names=["self", "attrs", "name"]))
     n_acc = 0
+    if not any(k[0] == "sym" and (str(k[1]).startswith("eq(") or "_with(" in str(k[1]) or str(k[1]).startswith("contains(")) for st, rv in outs for k in st.key):
+        R.notes.append("ATTR not decided: the attribute-matching predicate of attr_opt is not expressed through slice comparisons the analysis follows (e.g. an iterator adaptor over quick-xml's attribute iterator)")
+        return
     for st, rv in outs:
         if not isinstance(rv, Enum):
             continue
